@@ -5,6 +5,7 @@ import (
 	"encoding/json"
 	"fmt"
 	"image"
+	"io"
 	"math/rand"
 	"sort"
 	"time"
@@ -183,20 +184,29 @@ func truncOne(pre []byte, full image.Image, fcfg image.Config, ffeat *webp.Featu
 		}
 	}()
 	identical := false
-	if im, err := guardedDecode(pre); err == nil {
-		if fmt.Sprintf("%T", im) != fmt.Sprintf("%T", full) || !sameImage(im, full) {
-			return "partial-picture", fmt.Sprintf("Decode of the prefix returned a different picture (%T %v)", im, im.Bounds())
+	// every entry point is fed twice: from a *bytes.Reader and from a plain stream (no Len, short reads)
+	for _, kind := range []string{"bytes.Reader", "stream"} {
+		rd := func() io.Reader {
+			if kind == "stream" {
+				return streamOf(pre)
+			}
+			return bytes.NewReader(pre)
 		}
-		identical = true
-	}
-	if c, err := webp.DecodeConfig(bytes.NewReader(pre)); err == nil {
-		if c.Width != fcfg.Width || c.Height != fcfg.Height || c.ColorModel != fcfg.ColorModel {
-			return "config-differs", fmt.Sprintf("DecodeConfig on the prefix: %dx%d, full file %dx%d (or colour model differs)", c.Width, c.Height, fcfg.Width, fcfg.Height)
+		if im, err := guardedDecodeFrom(pre, rd()); err == nil {
+			if fmt.Sprintf("%T", im) != fmt.Sprintf("%T", full) || !sameImage(im, full) {
+				return "partial-picture|" + kind, fmt.Sprintf("Decode of the prefix (read from a %s) returned a different picture (%T %v)", kind, im, im.Bounds())
+			}
+			identical = true
 		}
-	}
-	if f, err := webp.GetFeatures(bytes.NewReader(pre)); err == nil {
-		if *f != *ffeat {
-			return "features-differ", fmt.Sprintf("GetFeatures on the prefix: %+v, full file %+v", *f, *ffeat)
+		if c, err := webp.DecodeConfig(rd()); err == nil {
+			if c.Width != fcfg.Width || c.Height != fcfg.Height || c.ColorModel != fcfg.ColorModel {
+				return "config-differs|" + kind, fmt.Sprintf("DecodeConfig on the prefix (read from a %s): %dx%d, full file %dx%d (or colour model differs)", kind, c.Width, c.Height, fcfg.Width, fcfg.Height)
+			}
+		}
+		if f, err := webp.GetFeatures(rd()); err == nil {
+			if *f != *ffeat {
+				return "features-differ|" + kind, fmt.Sprintf("GetFeatures on the prefix (read from a %s): %+v, full file %+v", kind, *f, *ffeat)
+			}
 		}
 	}
 	if identical {
